@@ -22,6 +22,7 @@ import (
 	"encoding/hex"
 	"fmt"
 	"sort"
+	"strings"
 
 	sifapp "github.com/Sifchain/sifnode/app"
 	admintypes "github.com/Sifchain/sifnode/x/admin/types"
@@ -211,6 +212,25 @@ func init() {
 	}
 }
 
+// Spellings.  bech32 is case-insensitive as long as the case is not mixed: "SIF1…" decodes to the same account as
+// "sif1…", but AccAddress.String() always yields the lower-case form.  The role table of x/admin is keyed by the
+// string it is given, so spellings are a dimension of the matrix:
+//   * upperHabit: accounts that are ALWAYS named in upper case in AddAccount / RemoveAccount payloads (one spelling per
+//     account and history; only accounts without a set-up entry, which are stored canonically);
+//   * other address-typed payload fields and the Signer field itself use the upper-case form now and then.
+var upperHabit = map[int]bool{}
+
+func upperOf(a sdk.AccAddress) string { return strings.ToUpper(a.String()) }
+
+func drawUpperHabit(rng *Rng) {
+	upperHabit = map[int]bool{12: true}
+	for _, i := range []int{7, 8, 9, 11, 13} {
+		if rng.Chance(1, 2) {
+			upperHabit[i] = true
+		}
+	}
+}
+
 var authRoles = []admintypes.AdminType{admintypes.AdminType_CLPDEX, admintypes.AdminType_PMTPREWARDS, admintypes.AdminType_TOKENREGISTRY,
 	admintypes.AdminType_ETHBRIDGE, admintypes.AdminType_ADMIN, admintypes.AdminType_MARGIN}
 
@@ -223,16 +243,37 @@ func mkCases(app *sifapp.SifchainApp, addrs []sdk.AccAddress) []handlerCase {
 	pay := func(k int) (admintypes.AdminType, sdk.AccAddress) {
 		return roles[k%len(roles)], addrs[(k/len(roles))%NACC]
 	}
-	payS := func(k int) (string, string) { r, a := pay(k); return r.String(), a.String() }
+	tableSpelling := func(k int) string { // the spelling an account is named with in AddAccount / RemoveAccount
+		i := (k / len(roles)) % NACC
+		if upperHabit[i] {
+			return upperOf(addrs[i])
+		}
+		return addrs[i].String()
+	}
+	payS := func(k int) (string, string) { r, _ := pay(k); return r.String(), tableSpelling(k) }
+	anySpelling := func(i, k int) string { // other address fields: upper case now and then
+		if (k/3)%4 == 0 {
+			return upperOf(addrs[i%NACC])
+		}
+		return addrs[i%NACC].String()
+	}
+	valSpelling := func(i, k int) string {
+		v := sdk.ValAddress(addrs[i]).String()
+		if (k/3)%4 == 0 {
+			return strings.ToUpper(v)
+		}
+		return v
+	}
+	_ = pay
 
 	cases := []handlerCase{
 		{module: "admin", name: "AddAccount", payload: payS, build: func(c sdk.Context, s string, k int) sdk.Msg {
-			r, a := pay(k)
-			return &admintypes.MsgAddAccount{Signer: s, Account: &admintypes.AdminAccount{AdminType: r, AdminAddress: a.String()}}
+			r, _ := pay(k)
+			return &admintypes.MsgAddAccount{Signer: s, Account: &admintypes.AdminAccount{AdminType: r, AdminAddress: tableSpelling(k)}}
 		}},
 		{module: "admin", name: "RemoveAccount", payload: payS, build: func(c sdk.Context, s string, k int) sdk.Msg {
-			r, a := pay(k)
-			return &admintypes.MsgRemoveAccount{Signer: s, Account: &admintypes.AdminAccount{AdminType: r, AdminAddress: a.String()}}
+			r, _ := pay(k)
+			return &admintypes.MsgRemoveAccount{Signer: s, Account: &admintypes.AdminAccount{AdminType: r, AdminAddress: tableSpelling(k)}}
 		}},
 		{module: "admin", name: "SetParams", build: func(c sdk.Context, s string, k int) sdk.Msg {
 			return &admintypes.MsgSetParams{Signer: s, Params: &admintypes.Params{SubmitProposalFee: sdk.NewUint(uint64(1000 + k))}}
@@ -295,10 +336,10 @@ func mkCases(app *sifapp.SifchainApp, addrs []sdk.AccAddress) []handlerCase {
 			return &margintypes.MsgUpdateRowanCollateral{Signer: s, RowanCollateralEnabled: k%2 == 0}
 		}},
 		{module: "margin", name: "Whitelist", build: func(c sdk.Context, s string, k int) sdk.Msg {
-			return &margintypes.MsgWhitelist{Signer: s, WhitelistedAddress: addrs[k%NACC].String()}
+			return &margintypes.MsgWhitelist{Signer: s, WhitelistedAddress: anySpelling(k, k)}
 		}},
 		{module: "margin", name: "Dewhitelist", build: func(c sdk.Context, s string, k int) sdk.Msg {
-			return &margintypes.MsgDewhitelist{Signer: s, WhitelistedAddress: addrs[k%NACC].String()}
+			return &margintypes.MsgDewhitelist{Signer: s, WhitelistedAddress: anySpelling(k, k)}
 		}},
 		{module: "margin", name: "ForceClose", lenient: true, build: func(c sdk.Context, s string, k int) sdk.Msg {
 			return &margintypes.MsgForceClose{Signer: s, MtpAddress: addrs[11].String(), Id: 1}
@@ -320,13 +361,13 @@ func mkCases(app *sifapp.SifchainApp, addrs []sdk.AccAddress) []handlerCase {
 			if k%2 == 1 {
 				op = "remove"
 			}
-			return &ethtypes.MsgUpdateWhiteListValidator{CosmosSender: s, Validator: sdk.ValAddress(addrs[(k/2)%NACC]).String(), OperationType: op}
+			return &ethtypes.MsgUpdateWhiteListValidator{CosmosSender: s, Validator: valSpelling((k/2)%NACC, k), OperationType: op}
 		}},
 		{module: "ethbridge", name: "UpdateCethReceiverAccount", build: func(c sdk.Context, s string, k int) sdk.Msg {
-			return &ethtypes.MsgUpdateCethReceiverAccount{CosmosSender: s, CethReceiverAccount: addrs[k%NACC].String()}
+			return &ethtypes.MsgUpdateCethReceiverAccount{CosmosSender: s, CethReceiverAccount: anySpelling(k, k)}
 		}},
 		{module: "ethbridge", name: "RescueCeth", build: func(c sdk.Context, s string, k int) sdk.Msg {
-			return &ethtypes.MsgRescueCeth{CosmosSender: s, CosmosReceiver: addrs[k%NACC].String(), CethAmount: sdk.NewInt(1)}
+			return &ethtypes.MsgRescueCeth{CosmosSender: s, CosmosReceiver: anySpelling(k, k), CethAmount: sdk.NewInt(1)}
 		}},
 	}
 	return cases
